@@ -697,9 +697,11 @@ package jrpc2
 //@ tlghost hookCalls Int
 //@ tlghost stopHooks Int
 //@ role field Client.chook
+//@   requires arg0 != nil && !held(fieldaddr(arg0, mu))
 //@   modifies hookCalls
 //@   ensures hookCalls == old(hookCalls) + 1
 //@ role field Client.shook
+//@   requires arg0 != nil && !held(fieldaddr(arg0, mu))
 //@   modifies stopHooks
 //@   ensures stopHooks == old(stopHooks) + 1
 
@@ -789,10 +791,15 @@ package jrpc2
 // stopLocked: idempotent; closes the channel once, cancels callbacks and every
 // pending request, records the FIRST cause; returns the OnStop thunk.
 //@ pure isStopThunk(f Int) Bool = iscode(f, "(*Client).stopLocked$2")
+// thunkOwner(f): ghost - the client whose stopLocked returned the thunk f.
+//@ ghost thunkOwner(Int) *jrpc2.Client
 //@ func (*Client).stopLocked
 //@   requires wfClient(c) && held(fieldaddr(c, mu)) && Client_mu_inv(c) && err != nil
-//@   modifies c.ch, c.err, fired, chCloses(c.ch)
+//@   modifies c.ch, c.err, fired, chCloses(c.ch), thunkOwner
 //@   fresh result
+//@   at return#1 ghostset thunkOwner(result) = c
+//@   at return#2 ghostset thunkOwner(result) = c
+//@   ensures[C05:thunk-owner] thunkOwner(result) == c && forall(f Int, !isnew(f) && f != result ==> thunkOwner(f) == old(thunkOwner(f)))
 //@   ensures[C05:stopped] c.ch == nil && c.err != nil && result != nil
 //@   ensures[C05:first-cause] old(c.ch) != nil ==> c.err == err && isStopThunk(result)
 //@   ensures[C05:idempotent] old(c.ch) == nil ==> c.err == old(c.err) && !isStopThunk(result) && forall(f Int, fired(f) == old(fired(f)))
@@ -804,6 +811,7 @@ package jrpc2
 
 // The thunk returned by stopLocked: calls OnStop exactly when it is the real one.
 //@ role result stopLocked.0
+//@   requires[C05:stop-hook-outside-lock] thunkOwner(self) != nil && !held(fieldaddr(thunkOwner(self), mu))
 //@   modifies stopHooks
 //@   ensures stopHooks == old(stopHooks) + (isStopThunk(self) ? 1 : 0)
 
@@ -893,3 +901,10 @@ package jrpc2
 //@   modifies monitor(Client, c), held(fieldaddr(c, mu)), fired, chCloses, chRecvs(ch), stopHooks, wgDebt(c.done)
 //@   ensures[C05:done-paid] wgDebt(c.done) == 0 && !held(fieldaddr(c, mu))
 //@   loop 1 invariant !held(fieldaddr(c, mu)) && wgDebt(c.done) == 1
+
+// The real OnStop thunk: one call of the hook, made without the lock.
+//@ func (*Client).stopLocked$2
+//@   captures c != nil && c.shook != nil
+//@   requires !held(fieldaddr(c, mu))
+//@   modifies stopHooks
+//@   ensures[C05:one-stop-hook] stopHooks == old(stopHooks) + 1
